@@ -12,10 +12,23 @@
      rep8 l                eight repetitions of l
      doc_block p s         map2 N.lxor (pad32 p) (rep8 (be32 s))  -- doc/proto_00000502.txt
      md5                   RFC 1321, written from the RFC text
-     raw_login_up/down     the hashes of seed+1 / seed-1 of the raw-UDP login *)
+     raw_login_up/down     the hashes of seed+1 / seed-1 of the raw-UDP login
+   Vocabulary of the glue between the version reply and the login (coq/LoginGlue.v); C ints are
+   Z, uint32_t values and byte patterns are N:
+     srv_version_reply seed uid   iodined.c 'V' branch + send_version_response: the 9 bytes handed
+                           to write_dns for the int users[].seed and the int userid
+     cli_version inb       client.c handshake_version on the reply bytes inb: Some (seed, userid)
+                           as it stores them ( *seed = payload; userid = in[8] ), None = not accepted
+     cli_payload_defined inb   no operand of the reassembly has undefined behaviour (int shift)
+     cli_dns_login p seed  handshake_login: login_calculate(login, 16, password, seed)
+     cli_raw_login p seed  send_raw_udp_login: login_calculate(.., (int) ((unsigned) seed + 1))
+     cli_raw_accepts       handshake_raw_udp's test of the server's answer (seed - 1)
+     srv_dns_login p seed  iodined.c login handler: login_calculate(.., users[userid].seed)
+     srv_login_accepts     its memcmp with the 16 bytes of the login message
+     u32_of_Z / int_of_u32 int -> uint32_t (mod 2^32) and uint32_t -> int (two's complement) *)
 From Coq Require Import String Ascii.
-From Coq Require Import List NArith Arith Lia.
-From Iodine Require Import Base Md5 Login LoginProofs.
+From Coq Require Import List NArith ZArith Arith Lia.
+From Iodine Require Import Base Generated.SrcConsts Md5 Login LoginProofs LoginGlue LoginGlueProofs.
 Import ListNotations.
 Local Open Scope N_scope.
 
@@ -112,6 +125,66 @@ Proof.
 Qed.
 Print Assumptions C19_raw_interop.
 
+(* --- the glue between the server's version reply and the client's login ---------------------- *)
+(* for every C int the server may hold as challenge (all 2^32) and every userid the server can
+   assign: the real reply layout fed to the real reassembly gives back exactly that int (and the
+   userid), no operand of the reassembly overflows an int shift, and bytes 4..7 of the reply are
+   the challenge most significant byte first *)
+Theorem C19_version_challenge_roundtrip : forall (seed : Z) (u : N),
+  (-2147483648 <= seed < 2147483648)%Z -> u < 128 ->
+  cli_version (srv_version_reply seed (Z.of_N u)) = Some (seed, Z.of_N u) /\
+  cli_payload_defined (srv_version_reply seed (Z.of_N u)) = true /\
+  firstn 4 (skipn 4 (srv_version_reply seed (Z.of_N u))) = be32 (u32_of_Z seed).
+Proof. exact version_roundtrip_int. Qed.
+Print Assumptions C19_version_challenge_roundtrip.
+
+(* the same over the 2^32 bit patterns, with the reply spelled out *)
+Theorem C19_version_challenge_roundtrip_u32 : forall (s u : N), s < 4294967296 -> u < 128 ->
+  srv_version_reply (int_of_u32 s) (Z.of_N u) = vack_tag ++ be32 s ++ [u] /\
+  cli_version (srv_version_reply (int_of_u32 s) (Z.of_N u)) = Some (int_of_u32 s, Z.of_N u) /\
+  cli_payload_defined (srv_version_reply (int_of_u32 s) (Z.of_N u)) = true.
+Proof. exact version_roundtrip. Qed.
+Print Assumptions C19_version_challenge_roundtrip_u32.
+
+(* hence the login the client sends is the one the server computes: DNS login with the challenge,
+   raw login with challenge+1, the server's raw answer with challenge-1 (both modulo 2^32), and
+   the DNS login is the documented MD5(pass32 xor 8 x big-endian challenge) *)
+Theorem C19_handshake_login_agrees : forall (p : list N) (seed : Z) (u : N),
+  (-2147483648 <= seed < 2147483648)%Z -> u < 128 ->
+  exists cseed cuid,
+    cli_version (srv_version_reply seed (Z.of_N u)) = Some (cseed, cuid) /\
+    cseed = seed /\ cuid = Z.of_N u /\
+    cli_dns_login p cseed = srv_dns_login p seed /\
+    srv_login_accepts p seed (cli_dns_login p cseed) = true /\
+    (bytes_ok p ->
+       cli_dns_login p cseed = md5 (map2 N.lxor (pad32 p) (rep8 (be32 (u32_of_Z seed))))) /\
+    cli_raw_login p cseed = raw_login_up p (u32_of_Z seed) /\
+    cli_raw_login p cseed = login_calculate p ((u32_of_Z seed + 1) mod 2 ^ 32) /\
+    raw_server p (u32_of_Z seed) (cli_raw_login p cseed) = Some (raw_login_down p (u32_of_Z seed)) /\
+    cli_raw_accepts p cseed (raw_login_down p (u32_of_Z seed)) = true /\
+    raw_login_down p (u32_of_Z seed) = login_calculate p ((u32_of_Z seed + 2 ^ 32 - 1) mod 2 ^ 32).
+Proof. exact handshake_login_agrees. Qed.
+Print Assumptions C19_handshake_login_agrees.
+
+(* what the theorems above exclude (they rest on LoginGlueProofs.cli_check, which evaluates the
+   source's expression on all 256 patterns of each byte): an in[7] read without its mask is
+   sign-extended, and an in[4] shifted as an int is undefined for challenges >= 2^31 *)
+Theorem C19_glue_mask_needed :
+  let t := {| t_idx := 7; t_masked := false; t_mask := 0; t_cast := false; t_shift := 0 |} in
+  cli_signed = true /\
+  term_u32 t 128 = 4294967168 /\
+  (forall b, b < 128 -> term_u32 t b = b) /\
+  term_ok t 7 0 = false.
+Proof. exact unmasked_low_byte_sign_extends. Qed.
+Print Assumptions C19_glue_mask_needed.
+
+Theorem C19_glue_cast_needed :
+  let t := {| t_idx := 4; t_masked := true; t_mask := 255; t_cast := false; t_shift := 24 |} in
+  term_u32 t 128 = 2147483648 /\ term_defined t 128 = false /\ term_defined t 127 = true /\
+  term_ok t 4 24 = false.
+Proof. exact uncast_high_byte_undefined. Qed.
+Print Assumptions C19_glue_cast_needed.
+
 (* the output buffer is written only when it can take 16 bytes *)
 Theorem C19_buflen : forall (n : N) (p : list N) (s : N),
   (n < 16 -> login_out n p s = None) /\
@@ -184,4 +257,28 @@ Proof.
   cbv zeta.
   repeat match goal with |- _ /\ _ => split end; try (vm_compute; reflexivity).
   intros H. vm_compute in H. discriminate H.
+Qed.
+
+(* non-vacuity of the glue theorems: every userid the server assigns is below 128; challenge 0x80
+   (low byte negative as a signed char) and 0xffffffff (the C int -1) go through the reply and
+   come back, and the login for 0x80 is the documented one, not the one for 0xffffff80 *)
+Example C19_example_glue :
+  let p := bytes_of_string "iodine is the shit"%string in
+  src_USERS <= 128 /\
+  srv_version_reply 128 3 = [86; 65; 67; 75; 0; 0; 0; 128; 3] /\
+  cli_version [86; 65; 67; 75; 0; 0; 0; 128; 3] = Some (128%Z, 3%Z) /\
+  srv_version_reply (-1) 15 = [86; 65; 67; 75; 255; 255; 255; 255; 15] /\
+  cli_version [86; 65; 67; 75; 255; 255; 255; 255; 15] = Some ((-1)%Z, 15%Z) /\
+  cli_version [86; 78; 65; 75; 0; 0; 5; 2; 0] = None /\
+  cli_version [86; 65; 67; 75; 0; 0; 0; 128] = None /\
+  cli_dns_login p 128 =
+    [32; 37; 213; 161; 40; 30; 197; 230; 159; 139; 235; 58; 80; 23; 199; 1] /\
+  login_calculate p 4294967168 =
+    [40; 73; 226; 110; 58; 111; 230; 15; 107; 82; 153; 214; 213; 77; 106; 50] /\
+  cli_raw_login p 128 =
+    [121; 27; 144; 148; 64; 0; 166; 172; 49; 183; 244; 98; 204; 127; 37; 7] /\
+  cli_raw_login p (-1) = login_calculate p 0.
+Proof.
+  cbv zeta. split; [vm_compute; discriminate|].
+  repeat match goal with |- _ /\ _ => split end; vm_compute; reflexivity.
 Qed.
